@@ -5,7 +5,9 @@ patch=$1; tier=$2; shift 2
 cd /repo || exit 2
 if ! git diff --quiet; then echo "/repo is dirty"; exit 2; fi
 git apply "$patch" || { echo "patch does not apply"; exit 2; }
-trap 'git -C /repo checkout -- . ' EXIT
+# evidence written while a seeded change is applied must not replace the evidence of the unchanged tree
+rm -rf /verif/work/evidence.bak; cp -r /verif/evidence /verif/work/evidence.bak
+trap 'git -C /repo checkout -- . ; rm -rf /verif/evidence; mv /verif/work/evidence.bak /verif/evidence' EXIT
 cd /verif
 for p in "$@"; do
   s=$(date +%s)
